@@ -124,7 +124,7 @@ def explore(run, tier):
                 cfg = copy.deepcopy(pkg)
                 cfg[k]['field_processor'] = proc
                 mx = 99 if cfg[k]['field_type'] == 'LLVAR' else 40
-                for n in range(10, min(41, mx + 1)):
+                for n in range(10 if proc == 'PAN' else 1, min(41, mx + 1)):
                     codec = ['latin_1', 'cp500', 'cp037'][(n + rep) % 3]
                     kind = 'digits' if (n + rep) % 4 else 'any'
                     pan = iu.text(rng, codec, n, kind)
@@ -134,6 +134,18 @@ def explore(run, tier):
                     if n in (10, 11, 16, 19, 25, 40):
                         cases.append({'cfg': cfg, 'codec': codec, 'hex': n % 2, 'msg': iu.dict_wire(m),
                                       'unique': kind == 'digits', 'hist': ['inplace', 'deepcopy'][(n + rep) % 2]})
+    # card numbers of ONE repeated digit (zero-filled, nine-filled placeholders) and of two alternating digits: masked like
+    # any other — what the value looks like never decides whether it is masked
+    for j, k in enumerate(var_bits):
+        for proc in ('PAN', 'PAN-PREFIX'):
+            cfg = copy.deepcopy(pkg)
+            cfg[k]['field_processor'] = proc
+            for n in (10, 11, 13, 16, 19):
+                for fillch in ('0', '9', '5', '01', ' '):
+                    codec = ['latin_1', 'cp500', 'cp037'][(n + j) % 3]
+                    pan = (fillch * n)[:n]
+                    m = {'MTI': '1240', f'DE{k}': pan, 'DE3': '123456', 'DE24': '200'}
+                    cases.append({'cfg': cfg, 'codec': codec, 'hex': (n + j) % 2, 'msg': iu.dict_wire(m), 'unique': True})
     for _ in range(40 if tier == 'quick' else 400):
         cfg = iu.gen_config(rng)
         if not any(fc.get('field_processor') in ('PAN', 'PAN-PREFIX') for fc in cfg.values()):
